@@ -40,6 +40,12 @@ theorem halfClose_conservation (acts : List Act) (s : St) (h : run .halfClose in
   have hi := inv_run acts s h
   exact ⟨hi.consAB, hi.consBA⟩
 
+/-- in particular neither peer ever receives more than the other has sent, in any reachable state -/
+theorem halfClose_never_invents (acts : List Act) (s : St) (h : run .halfClose init acts = some s) :
+    s.bGot ≤ s.aSent ∧ s.aGot ≤ s.bSent := by
+  have := halfClose_conservation acts s h
+  omega
+
 /-- halfClose, no spurious teardown: while neither peer has closed, every loop runs and nothing is closed. -/
 theorem halfClose_no_spurious (acts : List Act) (s : St) (h : run .halfClose init acts = some s)
     (ha : s.aClosed = false) (hb : s.bClosed = false) :
